@@ -47,11 +47,13 @@ Applicable(q) == Pending(q) /\ ~q.needR /\ ~q.needW
 NeedsR == rd.needR \/ wr.needR
 NeedsW == rd.needW \/ wr.needW
 \* the stage the poke is really in: stages with nothing to do are passed over
-Eff == IF pk = "rd" THEN (IF Applicable(rd) THEN "rd" ELSE IF Applicable(wr) THEN "wr" ELSE "setup")
+Eff == IF ~open THEN "setup"                     \* a closed context is not touched again: the poke in progress just ends
+       ELSE IF pk = "rd" THEN (IF Applicable(rd) THEN "rd" ELSE IF Applicable(wr) THEN "wr" ELSE "setup")
        ELSE IF pk = "wr" THEN (IF Applicable(wr) THEN "wr" ELSE "setup")
        ELSE pk
 \* the registration update: cancellations first, then registrations, read side before write side
-SetupHead == IF waitR /\ ~NeedsR THEN "cancelR" ELSE IF waitW /\ ~NeedsW THEN "cancelW"
+SetupHead == IF ~open THEN "none"
+             ELSE IF waitR /\ ~NeedsR THEN "cancelR" ELSE IF waitW /\ ~NeedsW THEN "cancelW"
              ELSE IF ~waitR /\ NeedsR THEN "regR" ELSE IF ~waitW /\ NeedsW THEN "regW" ELSE "none"
 PokeIdle == incb = "none" /\ ~sub /\ (pk = "idle" \/ (Eff = "setup" /\ SetupHead = "none"))
 
@@ -78,9 +80,11 @@ CancelWrite == /\ CanCall /\ Pending(wr) /\ cancelled' = cancelled \cup {wr.id} 
                /\ UNCHANGED <<rd, waitR, waitW, imm, incb, done, nreq, open>>
 CancelRet == /\ sub /\ SetupHead = "none" /\ sub' = FALSE
              /\ UNCHANGED <<rd, wr, waitR, waitW, imm, pk, incb, done, cancelled, nreq, open>>
-\* closing: nothing pending, nothing registered; a poke still on its way is called off
-Close == /\ open /\ PokeIdle /\ ~Pending(rd) /\ ~Pending(wr) /\ ~waitR /\ ~waitW
-         /\ open' = FALSE /\ imm' = FALSE /\ pk' = "idle"
+\* closing - from outside, or from inside a user callback (http.c closes the context whenever a request ends): nothing pending,
+\* nothing registered; a poke still on its way is called off, and the poke in progress must not touch the context again
+CloseOK == ~Pending(rd) /\ ~Pending(wr)
+Close == /\ open /\ ~sub /\ (PokeIdle \/ incb # "none") /\ CloseOK /\ ~waitR /\ ~waitW
+         /\ open' = FALSE /\ imm' = FALSE /\ pk' = Settle
          /\ UNCHANGED <<rd, wr, waitR, waitW, sub, incb, done, cancelled, nreq>>
 
 \* ---- pokes ----
@@ -147,5 +151,8 @@ Once == /\ \A a, b \in done : a[1] = b[1] => a = b
         /\ \A a \in done : a[1] \notin cancelled
 Counts == \A a \in done : a[2] = -1 \/ (a[2] = 0 /\ a[5] = "r") \/ (a[2] >= 1 /\ a[2] >= a[3] /\ a[2] <= a[4])
 ClosedQuiet == ~open => (~waitR /\ ~waitW /\ ~imm /\ ~Pending(rd) /\ ~Pending(wr))
-Inv == Matched /\ NotForgotten /\ NeedsOnlyPending /\ Once /\ Counts /\ ClosedQuiet
+\* whenever the caller is entitled to close (nothing pending), closing is possible: no socket event is left registered - inside a
+\* callback too, where the registration update of the poke in progress has not happened yet
+Closable == (open /\ ~sub /\ (PokeIdle \/ incb # "none") /\ CloseOK) => (~waitR /\ ~waitW)
+Inv == Matched /\ NotForgotten /\ NeedsOnlyPending /\ Once /\ Counts /\ ClosedQuiet /\ Closable
 =============================================================================
